@@ -57,8 +57,8 @@ def roundtrip_failure(opt, row, v):
 def run_optcodec(ctx, ch: Channel, only: set | None = None):
     rows, opts, _ = L.registry()
     rng = ctx.rng("optcodec")
-    n_from = ctx.scale(14, 60)
-    n_to = ctx.scale(14, 120)
+    n_from = ctx.scale(40, 200)
+    n_to = ctx.scale(50, 600)
     lines, meta = [], []
     for i, (row, opt) in enumerate(zip(rows, opts)):
         if only is not None and row["cgi"] not in only:
@@ -170,7 +170,7 @@ def run_optforward(ctx, ch: Channel):
     from dashlive.utils.objects import dict_to_cgi_params
     rows, opts, _ = L.registry()
     rng = ctx.rng("optforward")
-    n = ctx.scale(500, 8000)
+    n = ctx.scale(1500, 20000)
     lines, meta = [], []
     glob = OptionsRepository.get_default_options()
     for _ in range(n):
